@@ -151,6 +151,28 @@ func c11(r *Run) {
 		// onhups(): the queued callbacks run on a fresh goroutine, and the queue is emptied first
 		goes := findIns(onhups, func(i ssa.Instruction) bool { _, ok := i.(*ssa.Go); return ok })
 		r.ob("C11.R1:hups-run-async", "queued hang-ups are run on a separate goroutine (they may block on user code)", onhups, nil, len(goes) == 1, fmt.Sprintf("%d go statements", len(goes)), false)
+		{
+			// ... all of them: the function that starts the goroutine invokes no queued callback itself (a hang-up callback may
+			// block on user code, and the poller goroutine serves every other connection of this poller)
+			var inline ssa.Instruction
+			forEachIns(onhups, func(i ssa.Instruction) {
+				cc := callCommon(i)
+				if cc == nil || cc.StaticCallee() != nil || cc.IsInvoke() {
+					return
+				}
+				if _, isGo := i.(*ssa.Go); isGo {
+					return
+				}
+				if _, isBuiltin := cc.Value.(*ssa.Builtin); isBuiltin {
+					return
+				}
+				if _, isClosure := cc.Value.(*ssa.MakeClosure); isClosure {
+					return
+				}
+				inline = i
+			})
+			r.ob("C11.R1:no-hangup-callback-on-the-poller-goroutine", "the function that hands the queued hang-up callbacks to a goroutine calls none of them itself: OnHup runs user code (OnDisconnect, close callbacks) that may block, and the poller goroutine serves every other connection", onhups, inline, inline == nil, "no dynamic call in onhups() outside the go statement", true)
+		}
 		for _, g := range goes {
 			r.precedes("C11.R1:hups-queue-cleared", "the queue is detached from the poller before the goroutine starts (each hang-up is reported once)", onhups, g, func(i ssa.Instruction) bool {
 				st, ok := i.(*ssa.Store)
